@@ -1,6 +1,8 @@
 SPECIFICATION Spec
-CONSTANT MaxPlan = 2
-CONSTANT Depth = 10
+CONSTANT MaxPlan = 3
+CONSTANT MaxPc = 2
+CONSTANT MaxStops = 2
+CONSTANT Depth = 14
 CONSTRAINT Bound
 VIEW View
 INVARIANT InOrderOnce
